@@ -183,6 +183,10 @@ func permitScenario(t int, seed int64, slow bool) ([]map[string]any, error) {
 	defer func() { portalwire.VerifEvent = nil }()
 	sw := netsim.NewSwitch()
 	limit := []int{0, 1, 2, 3, 3}[rng.Intn(5)]
+	// without --slow one scenario in 24 still waits for the code's own 15 s timeouts (a peer that accepts and never lets the
+	// node connect; an accepted offer whose transfer never comes): it runs in its own child process beside the others
+	timeouts := slow || t%24 == 7
+	forceTimeouts := !slow && t%24 == 7
 	flood := t%7 == 3 || t%7 == 5 // fill the offer queue: needs more slots than the queue holds
 	floodStop := t%7 == 5         // ... and stop the node while requests are still queued
 	// without --slow the overflowing flood is stopped too instead of being drained (draining 1400 offers to silent peers
@@ -269,10 +273,13 @@ func permitScenario(t int, seed int64, slow bool) ([]map[string]any, error) {
 
 	// ---- outbound: peers by outcome ----
 	kinds := []int{pkSilent, pkEmpty, pkWrongCode, pkUndecodable, pkWrongCount, pkDeclined, pkSuccess}
-	if slow {
+	if timeouts {
 		kinds = append(kinds, pkAcceptNoDial)
 	}
 	npeers := 1 + rng.Intn(7)
+	if forceTimeouts && limit == 0 {
+		limit = 2
+	}
 	if flood {
 		npeers = 8
 	}
@@ -289,6 +296,9 @@ func permitScenario(t int, seed int64, slow bool) ([]map[string]any, error) {
 	})
 	for i := 0; i < npeers; i++ {
 		k := kinds[rng.Intn(len(kinds))]
+		if forceTimeouts && i == 0 {
+			k = pkAcceptNoDial
+		}
 		if flood {
 			k = pkSilent
 		}
@@ -438,7 +448,7 @@ func permitScenario(t int, seed int64, slow bool) ([]map[string]any, error) {
 		return out, nil
 	}
 	maxWait := 20 * time.Second
-	if slow {
+	if timeouts {
 		maxWait = 100 * time.Second
 	}
 	if waitQuiet(maxWait, false) {
@@ -468,6 +478,7 @@ func permitScenario(t int, seed int64, slow bool) ([]map[string]any, error) {
 		nin = limit + 2
 	}
 	inKinds := []string{}
+	neverDone := false
 	// streams the harness has established for an accepted offer and not finished yet: while such a stream is young
 	// (the reader's timeout is 60 s, uTP's idle timeout 60 s) the transfer is in progress at the node whatever it
 	// thinks of its slots
@@ -508,7 +519,10 @@ func permitScenario(t int, seed int64, slow bool) ([]map[string]any, error) {
 		if forceOpen && len(opened) < limit {
 			kind = "open"
 		}
-		if !slow && kind == "never" {
+		if forceTimeouts && !neverDone {
+			kind, neverDone = "never", true
+		}
+		if !timeouts && kind == "never" {
 			kind = "ok" // the abandoned transfer ends only with the code's 15 s accept timeout
 		}
 		inKinds = append(inKinds, kind)
